@@ -10,7 +10,7 @@ LEVEL = "model_checking"
 RULE = ("BFS over solve histories: alphabet of operations {solve with the shared default Params object, solve with Exact control + objective "
         "filter, re-solve on the most recent solver object, solve with GradJac scaling, solve with derivative check, solve of a problem with an "
         "unsymmetric Hessian (module-level warn-once flags), solve ending in the deliberate step-size error, solve aborted by an exception from a user callback, [thorough: derivative check, DEBUG-logged solve, "
-        "flow-integration solve, solve with DistanceRatio+DualNorm on a second problem]}; ALL histories up to depth 3 over the quick alphabet (quick) / up to depth 3 over the full alphabet plus depth 4 over the quick alphabet (thorough), each "
+        "flow-integration solve, solve with DistanceRatio+DualNorm on a second problem]}; ALL histories up to depth 3 over the quick alphabet (quick) / up to depth 3 over the full alphabet plus depth 4 over the first six operations of the quick alphabet (thorough), each "
         "history executed in a fresh process; differential oracle: the digest (every trial step, status, x, y, d, counters) of every solve in a "
         "history equals the digest of the same operation executed alone in a fresh process. states = histories (no merging: interpreter state "
         "cannot be hashed, so no abstraction is claimed); transitions = operations executed")
@@ -159,6 +159,11 @@ def run_history(hist):
     """Executes the operations of `hist` in this process; returns the digest of each."""
     from pgfmc.drive import run as R
 
+    # modules that are imported lazily by some operations register warning filters etc. when first imported: import them before the first
+    # snapshot, so that only what a SOLVE does is observed
+    import scipy.integrate, scipy.optimize, scipy.sparse.linalg  # noqa
+    import pygradflow.integration.integration_solver  # noqa
+
     out = []
     last = None  # (solver, spec, params, lvl, op)
     gs0 = global_state()
@@ -295,7 +300,7 @@ def cases(tier, seed):
         for hist in itertools.product(ops(tier), repeat=d):
             out.append({"hist": list(hist), "refs": refs})
     if tier != "quick":
-        for hist in itertools.product(OPS_QUICK, repeat=4):
+        for hist in itertools.product(OPS_QUICK[:6], repeat=4):
             out.append({"hist": list(hist), "refs": refs})
     if tier == "quick":
         for d in (1, 2):
@@ -326,7 +331,7 @@ def run_case(case):
 def summarize(cases_, results, tier):
     n_ops = sum(r["stats"].get("ops", 0) for r in results)
     return {"states": len(cases_) + 1, "transitions": n_ops, "traces_validated_against_impl": len(cases_), "evaluations": n_ops,
-            "depth": 3 if tier == "quick" else 4, "depth4_alphabet": None if tier == "quick" else OPS_QUICK, "alphabet": ops(tier)}
+            "depth": 3 if tier == "quick" else 4, "depth4_alphabet": None if tier == "quick" else OPS_QUICK[:6], "alphabet": ops(tier)}
 
 
 def samples(cases_, results):
